@@ -86,3 +86,25 @@ Example C02_example :
   exists ms h', handle_stream (new_handler 0) [65; 211; 66; 67; 68; 69; 211]%N = Ok (ms, h') /\
                 map raw ms = [[65]; [211; 66; 67; 68; 69]; [211]]%N.
 Proof. eexists. eexists. split; vm_compute; reflexivity. Qed.
+
+(* ===================== C07 (framing and single-frame part) ===================== *)
+(* For every byte stream the stream handler returns normally: no panic (out-of-bounds read),
+   no error of the model's own, and the recursion fuel S (length input) always suffices. *)
+Theorem C07_stream : forall h input, exists ms h', handle_stream h input = Ok (ms, h').
+Proof.
+  intros h input. destruct (handle_stream_lossless h input) as (ms & h' & H & _).
+  exists ms, h'. exact H.
+Qed.
+Print Assumptions C07_stream.
+
+(* Single-frame decoding returns normally for arbitrary bytes (the function is public). *)
+Theorem C07_single : forall h b, exists r, get_message h b = Ok r.
+Proof. exact get_message_total. Qed.
+Print Assumptions C07_single.
+
+(* Non-vacuity: the 8-byte CRC-valid MSM-typed frame that used to kill the process is now
+   delivered as a typed message carrying an error. *)
+Example C07_example :
+  exists m h', get_message (new_handler 0) [211; 0; 2; 67; 80; 6; 162; 126]%N = Ok (Some m, h') /\
+               mtype m = 1077%Z /\ merr m = Some ErrTooShort.
+Proof. eexists. eexists. split; [vm_compute; reflexivity|]. split; reflexivity. Qed.
